@@ -305,6 +305,7 @@ func main() {
 	for done := 0; done < *nbytes; done += chunkB {
 		r.wireBytes(minInt(chunkB, *nbytes-done))
 	}
+	r.sectionDeep()
 	r.sectionSynthetic()
 	r.sectionWitness()
 	r.sectionJsonOrc(minInt(*n, 20000))
@@ -315,6 +316,7 @@ func main() {
 	serialize.InitMsgpackHandle()
 	sum.Count("phase.after_InitMsgpackHandle")
 	r.sectionRoundtrip(minInt(*n, 1500))
+	r.sectionDeep()
 	r.wireValues(minInt(*n, 1500))
 	r.wireBytes(minInt(*nbytes, 10000))
 	r.sum.KnownFindings = dedupeFindings(r.sum.KnownFindings)
